@@ -1319,11 +1319,16 @@ var vtACSNames = map[byte]rune{
 func (t *tScreen) buildAcsMap() {
 	acsstr := t.ti.AltChars
 	t.acs = make(map[rune]string)
+	// Cell content is written without TPuts, so padding in the enter and
+	// exit strings (vt220: "\x1b(0$<2>") must be removed here.
+	var enter, exit strings.Builder
+	t.ti.TPuts(&enter, t.ti.EnterAcs)
+	t.ti.TPuts(&exit, t.ti.ExitAcs)
 	for len(acsstr) >= 2 {
 		srcv := acsstr[0]
 		dstv := acsstr[1:2]
 		if r, ok := vtACSNames[srcv]; ok {
-			t.acs[r] = t.ti.EnterAcs + dstv + t.ti.ExitAcs
+			t.acs[r] = enter.String() + dstv + exit.String()
 		}
 		acsstr = acsstr[2:]
 	}
